@@ -48,8 +48,11 @@ struct Prop {
 
 Prop *make_prop(const std::string &id);
 
+struct OpStart { int task; const J *op; uint64_t inv_step; int64_t inv_time_s; uint64_t inv_time_us; bool matched = false; bool returned = false; uint64_t ret_step = 0; };
+
 struct Engine {
 	J plan;
+	std::vector<OpStart> starts;           // every ll/hl op at the moment its call is invoked
 	Prop *prop = nullptr;
 	bus::Bus bus;
 	std::vector<OpRec> oplog;
